@@ -326,4 +326,84 @@ def validateTop (custom : Option (List FieldErr)) (runAll : Bool) (strategy : St
     if runAll then validateAll (applicableParts a r) o
     else byStrategy (if strategy == .auto then determineStrategy a else strategy) r
 
+/-! ### the app layer: `app.Context.Bind` / `Validate` / `BindPatch` fold their options into the validation call
+(app/context.go `validateInternal`, `Validate`; app/bind_options.go; app/bind.go) -/
+
+/-- the validation options that decide between partial and full validation -/
+inductive VOpt where
+  | part (b : Bool)
+  | presence (pm : List Path)
+  /-- any other option (limits, redactor, strategy, context …) -/
+  | other
+  deriving Repr
+
+/-- the two fields of `validation.config` that `validateWithTags` tests -/
+structure VCfg where
+  isPartial : Bool
+  presence : Option (List Path)
+  deriving Repr
+
+def applyVOpt (c : VCfg) : VOpt → VCfg
+  | .part b => { c with isPartial := b }
+  | .presence pm => { c with presence := some pm }
+  | .other => c
+
+/-- `app.BindOption`s -/
+inductive BOpt where
+  | part                          -- `app.WithPartial()`
+  | presence (pm : List Path)     -- `app.WithPresence(pm)`
+  | validation (vs : List VOpt)   -- `app.WithValidationOptions(vs...)`
+  | other                         -- strict, binding options …
+  deriving Repr
+
+/-- `bindConfig` as far as validation reads it -/
+structure BCfg where
+  isPartial : Bool
+  presence : Option (List Path)
+  validationOpts : List VOpt
+  deriving Repr
+
+/-- `applyBindOptions` -/
+def applyBOpt (c : BCfg) : BOpt → BCfg
+  | .part => { c with isPartial := true }
+  | .presence pm => { c with presence := some pm }
+  | .validation vs => { c with validationOpts := c.validationOpts ++ vs }
+  | .other => c
+
+def mkBCfg (opts : List BOpt) : BCfg := opts.foldl applyBOpt { isPartial := false, presence := none, validationOpts := [] }
+
+/-- the option list `validateInternal` hands to `validation.Validate`: `WithContext`, `WithPartial(true)` if the
+    bind configuration says so, `WithPresence(pm)` with the explicit map or else the one the context computed from
+    the JSON body it bound (`c.Presence()`), then the caller's validation options (later options win) -/
+def validateInternalOpts (cfg : BCfg) (ctxPresence : Option (List Path)) : List VOpt :=
+  [.other] ++ (if cfg.isPartial then [.part true] else []) ++
+  (match cfg.presence with
+   | some pm => [.presence pm]
+   | none => match ctxPresence with
+     | some pm => [.presence pm]
+     | none => []) ++
+  cfg.validationOpts
+
+/-- `app.Context.Validate(v, opts...)`: `WithContext`, `WithPresence(c.Presence())` if any, then the caller's -/
+def contextValidateOpts (ctxPresence : Option (List Path)) (opts : List VOpt) : List VOpt :=
+  [.other] ++ (match ctxPresence with | some pm => [.presence pm] | none => []) ++ opts
+
+def foldV (opts : List VOpt) : VCfg := opts.foldl applyVOpt { isPartial := false, presence := none }
+
+/-- what `validateWithTags` does with the folded configuration: partial validation over that presence map
+    (`cfg.partial && cfg.presence != nil`), else full validation -/
+def tagsMode (c : VCfg) : Option (List Path) := if c.isPartial then c.presence else none
+
+/-- `app.Context.Bind(out, opts...)`, validation step: `some pm` = partial validation over `pm`, `none` = full -/
+def bindMode (opts : List BOpt) (ctxPresence : Option (List Path)) : Option (List Path) :=
+  tagsMode (foldV (validateInternalOpts (mkBCfg opts) ctxPresence))
+
+/-- `app.BindPatch[T](c, opts...)` = `Bind[T](c, WithPartial(), opts...)` -/
+def bindPatchMode (opts : List BOpt) (ctxPresence : Option (List Path)) : Option (List Path) :=
+  bindMode (.part :: opts) ctxPresence
+
+/-- `c.BindOnly(out)` followed by `c.Validate(out, opts...)` -/
+def validateMode (opts : List VOpt) (ctxPresence : Option (List Path)) : Option (List Path) :=
+  tagsMode (foldV (contextValidateOpts ctxPresence opts))
+
 end Rivaas.Presence
